@@ -429,6 +429,34 @@ class Check:
         self.vm_checked = 0
         self.notes = []
         self.findings = load_findings(prop)
+        # which files of the package differ from the state the checks were validated against (tools/anchors.py):
+        # not a violation - a reason to spend the escalation budget on the search even in the quick tier
+        try:
+            sys.path.insert(0, str(ROOT / "tools"))
+            import anchors as _anchors
+            self.changed_files = _anchors.changed(REPO) or []
+        except Exception:  # noqa
+            self.changed_files = []
+        finally:
+            if sys.path and sys.path[0] == str(ROOT / "tools"):
+                sys.path.pop(0)
+        relevant = set()
+        try:
+            for line in (ROOT / "properties.jsonl").read_text().splitlines():
+                if line.strip():
+                    pr = json.loads(line)
+                    if pr["id"] == prop:
+                        relevant = set(pr.get("anchors", {}).get("files", []))
+        except Exception:  # noqa
+            pass
+        core_files = {"casbin/core_enforcer.py", "casbin/internal_enforcer.py", "casbin/management_enforcer.py",
+                      "casbin/enforcer.py", "casbin/model/policy.py", "casbin/model/assertion.py", "casbin/model/model.py",
+                      "casbin/rbac/default_role_manager/role_manager.py"}
+        if prop in ("C04", "C05", "C06", "C07", "C09", "C11", "C15", "C19", "C20", "C03", "C14", "C17", "C18"):
+            relevant |= core_files
+        self.anchor_changed = bool(set(self.changed_files) & relevant) and "--replay" not in args
+        if self.changed_files:
+            self.notes.append("package files edited since the checks were validated: " + ", ".join(self.changed_files[:8]))
 
     # --- building
     def build(self, translators=(), oracle_name=None):
